@@ -537,15 +537,22 @@ def _row_ok(cls, row):
     return True
 
 
-def _ros_ok(tree, top=True):
+def _ros_splitter(path):
+    """`/path words` is one of the two sections RosFormatter.split post-processes (device listings)"""
+    g = ("/" + " ".join(path)).replace("/", "_splitter_").replace(" ", "_").replace("-", "_")
+    return g in ("_splitter_file", "_splitter_user_ssh_keys")
+
+
+def _ros_ok(tree, path=()):
     seen_section = False
     for k, c in tree:
         if c:
             seen_section = True
-            if " " in k or "/" in k or k in ("file", "ssh-keys") or not _row_ok("ros", k) or not _ros_ok(c, False):
+            if " " in k or "/" in k or not _row_ok("ros", k) or _ros_splitter(path + (k,)) \
+                    or not _ros_ok(c, path + (k,)):
                 return False
         else:
-            if top or seen_section or k.startswith("/") or not _row_ok("ros", k):
+            if not path or seen_section or k.startswith("/") or not _row_ok("ros", k):
                 return False
     return True
 
